@@ -1553,8 +1553,27 @@ def run_C15(ctx):
         'checked': solved, 'violations': len(bad), 'distinct_nontrivial': solved,
         'rule': 'every solved real return (non-negative input amounts): federal balance identities in exact cents (34-37 = 33-24, not both positive, 35a+36 = 34), NC likewise (26a/28/33/34 vs 19/25), and every float line non-negative except the documented signed helper nc_d-400.refund; scenarios include refunds, amounts owed, apply-to-next-year above and below the overpayment, estimated payments, itemizing, NC',
         'samples': [{'year': r['year'], 'kind': r.get('kind')} for r in (runs + extra)[:2]]}
+    # sign analysis: lines of the reviewed baseline that can no longer be proved not-negative (tools/gen_c15_sign.py)
+    lost = (ctx.gen_info or {}).get('c15_sign_failed') or []
+    ctx.gen_info = dict(ctx.gen_info or {}, c15_sign_failed=[f"{f.get('year')} {f.get('variant')} {f.get('line')}" for f in lost][:40])
+    seen_lost = set()
+    for f in lost:
+        line = str(f.get('line'))
+        name = f"Gen.c15_sign_{f.get('year')}_{f.get('variant')}_{line}"
+        ctx.obligations.append({'name': name, 'ok': False, 'check': f"was provably not negative on the reviewed tree, no longer is: {str(f.get('reason'))[:200]}"})
+        if (f.get('year'), line) in seen_lost:
+            continue
+        seen_lost.add((f.get('year'), line))
+        hit = next(((k, m, rep) for k, m, rep in bad if k.endswith(':' + line)), None)
+        what = f"{f.get('year')} {line} was provably never negative and no longer is: {str(f.get('reason'))[:200]}"
+        if hit is not None:
+            ctx.report('sign:' + str(f.get('year')) + ':' + line, what + '; on a real return: ' + hit[1], {'kind': 'scenario', 'case': hit[2], 'obligation': name})
     for key, msg, rep in bad:
         ctx.report('balance:' + key, msg, {'kind': 'scenario', 'case': rep})
+    if lost and not ctx.violations:
+        f = lost[0]
+        ctx.report(f"sign:{f.get('year')}:{f.get('line')}", f"{len(seen_lost)} line(s) that were provably never negative on the reviewed tree no longer are (first: {f.get('year')} {f.get('line')}: {str(f.get('reason'))[:160]}); the explored returns show no negative amount",
+                   {'obligations': [f"{x.get('year')} {x.get('variant')} {x.get('line')}" for x in lost][:40]}, found=False)
     finish_tie(ctx, broken, dis, found=bool(bad))
 
 
@@ -2013,9 +2032,13 @@ PROPS = {
         extra_audit={'HabuVerif/Proofs/C15NC.lean': ['HabuVerif.C15.' + t for t in [
             'nc_shapes_2021', 'nc_shapes_2022', 'nc_shapes_2023', 'nc_tax_total', 'nc_payments_total', 'nc_payments_net',
             'nc_overpayment_or_due', 'nc_balance', 'nc_amount_refunded', 'nc_applied_total', 'nc_amount_due_total',
-            'nc_refund_line', 'solved_nc_return_balances', 'solved_nc_stored_dollar']]},
+            'nc_refund_line', 'solved_nc_return_balances', 'solved_nc_stored_dollar']],
+                     'HabuVerif/Props/C15Sign.lean': ['HabuVerif.C15Sign.' + t for t in [
+            'sign_closed_2021', 'sign_closed_2022', 'sign_closed_2023', 'sign_closed_sum_2021', 'sign_closed_sum_2022',
+            'sign_closed_sum_2023', 'names_2021', 'names_2022', 'names_2023', 'closed_set_line']] + [
+            'HabuVerif.Sign.absBody_sound', 'HabuVerif.Sign.nnLineWith_sound_partial', 'HabuVerif.Sign.nnLine_sound_partial']},
         assumptions=['proved for the federal balance lines (1040 lines 34, 35a, 36, 37) in exact cents (amounts up to 1e13 cents) and for the NC D-400 balance lines (19, 23, 25, 26a, 27, 28, 33, 34, refund) in exact whole dollars (up to 1e13 dollars)',
-                     'PARTIAL: the non-negativity of the remaining lines is checked on explored returns only (no verified sign analysis)']),
+                     'sign half: a verified-in-part sign analysis (Spec/Sign.lean): per year the greatest set of float/int lines closed under "not negative given not-negative inputs and not-negative lines of the set" is regenerated and its closedness re-checked by the kernel (about 390 of 540-570 lines without trusting sum(), about 435 with); lines of the reviewed baseline that drop out are broken obligations. PARTIAL: the soundness theorem of the analysis (absBody_sound, nnLine_sound_partial) is relative to stated facts about the Python operators on values (OpFacts, WrapFact: the binary64 core of each is proved in Proofs/SignLemmas.lean) and the lift from line evaluations to solver states is not proved; lines outside the sets (plain and conditional subtractions, tax-table lookups) are checked on explored returns only']),
     'C16': dict(run=run_C16, theorems=['HabuVerif.C16.' + t for t in [
         'shapes_2021', 'shapes_2022', 'shapes_2023', 'withholding_total', 'renumbering_keeps_withholding',
         'net_is_payments_minus_tax', 'solved_net_is_payments_minus_tax', 'withholding_one_for_one',
